@@ -51,7 +51,13 @@ def lm_placements(rp, seed, tier):
     return lm_sim.run_all(rp, tier)
 
 
-CHECKS = {'sched-histories': sched_histories, 'bf-histories': bf_histories, 'lm-placements': lm_placements}
+def staging_e2e(rp, seed, tier):
+    from harness import staging_sim
+    return staging_sim.run_all(rp, tier)
+
+
+CHECKS = {'sched-histories': sched_histories, 'bf-histories': bf_histories, 'lm-placements': lm_placements,
+          'staging-e2e': staging_e2e}
 
 
 def main():
